@@ -102,6 +102,12 @@ def parseSrc (toks : List String) : Option Src :=
       let hint := match kv rest "hint" with
         | some "exact" => Hint.exact
         | some "unbounded" => Hint.unbounded
+        | some h =>
+          if h.startsWith "fixed" then
+            match (h.drop 5).toNat? with
+            | some k => Hint.fixed k
+            | none => Hint.inexact
+          else Hint.inexact
         | _ => Hint.inexact
       some (.iw { script := entries, hint := hint, byRef := kind = "iterref" })
     | _ => none
